@@ -2,7 +2,8 @@
 
 // C12 harness, part shared by the ipoe and pppoe overlays.  The pppoe copy
 // (c12_common_pppoe_test.go) is this file with the package clause changed:
-//   sed 's/^package ipoe$/package pppoe/' c12_common_ipoe_test.go > c12_common_pppoe_test.go
+//
+//	sed 's/^package ipoe$/package pppoe/' c12_common_ipoe_test.go > c12_common_pppoe_test.go
 package ipoe
 
 import (
@@ -13,6 +14,7 @@ import (
 	"fmt"
 	"net"
 	"os"
+	"regexp"
 	"runtime"
 	"sort"
 	"strconv"
@@ -96,7 +98,9 @@ type c12Handle struct {
 
 var errC12Dead = errors.New("c12: store handle of a crashed incarnation")
 
-func c12Idx(key string) string { return strings.TrimLeft(strings.TrimPrefix(key, "s"), "0") + c12zero(key) }
+func c12Idx(key string) string {
+	return strings.TrimLeft(strings.TrimPrefix(key, "s"), "0") + c12zero(key)
+}
 func c12zero(key string) string {
 	if strings.Trim(strings.TrimPrefix(key, "s"), "0") == "" {
 		return "0"
@@ -316,7 +320,9 @@ func (s *c12SB) DumpInterfaces() ([]southbound.InterfaceInfo, error) {
 	}
 	return out, nil
 }
-func (s *c12SB) GetInterfaceIndex(name string) (int, error) { return 0, errors.New("c12: no such interface") }
+func (s *c12SB) GetInterfaceIndex(name string) (int, error) {
+	return 0, errors.New("c12: no such interface")
+}
 func (s *c12SB) SetUnnumberedAsync(sw uint32, loopback string, cb func(error)) {
 	s.mu.Lock()
 	i, _ := s.bySwif(sw)
@@ -430,7 +436,7 @@ func (c *c12Cache) Decr(ctx context.Context, key string) (int64, error) {
 	return c.n[key], nil
 }
 func (c *c12Cache) Expire(ctx context.Context, key string, ttl time.Duration) error { return nil }
-func (c *c12Cache) Close() error                                                   { return nil }
+func (c *c12Cache) Close() error                                                    { return nil }
 
 // ---------------------------------------------------------------- addresses
 // in-pool address index a (0..n-1); static (outside every pool) index 1000+k
@@ -569,40 +575,110 @@ type c12Proto interface {
 }
 
 type c12Env struct {
-	fake    *c12Fake
-	sb      *c12SB
-	bus     *c12Bus
-	log     *c12Log
-	cache   *c12Cache
-	cfgm    *c12Cfg
-	p       c12Proto
-	n4, n6  int
-	kpd     int
-	ns      string
-	tick    int
-	tickets map[int]*c12Put // assigned parked puts
-	used    map[int]bool
-	t0      time.Time
+	fake      *c12Fake
+	sb        *c12SB
+	bus       *c12Bus
+	log       *c12Log
+	cache     *c12Cache
+	cfgm      *c12Cfg
+	p         c12Proto
+	n4, n6    int
+	kpd       int
+	ns        string
+	tick      int
+	tickets   map[int]*c12Put // assigned parked puts
+	unarrived map[int]c12Want // issued, not yet at the store
+	used      map[int]bool
+	t0        time.Time
+}
+
+// c12Ordering: learned at run time — the implementation serialises the writes of one key (a write waits for the
+// in-flight write of the same key), so a ticket may not reach the store before earlier ones are released.
+var c12Ordering bool
+
+var c12StampRe = regexp.MustCompile(`"t(\d+)"`)
+
+func c12StampOf(val []byte) int {
+	m := c12StampRe.FindSubmatch(val)
+	if m == nil {
+		return -1
+	}
+	n, _ := strconv.Atoi(string(m[1]))
+	return n
+}
+
+// goroutineWaiting reports whether goroutine gid is parked on a lock / condition / channel
+func c12GoroutineWaiting(gid int64) bool {
+	buf := make([]byte, 1<<20)
+	n := runtime.Stack(buf, true)
+	hdr := []byte(fmt.Sprintf("goroutine %d [", gid))
+	i := bytes.Index(buf[:n], hdr)
+	if i < 0 {
+		return false
+	}
+	rest := buf[i+len(hdr) : n]
+	j := bytes.IndexByte(rest, ']')
+	if j < 0 {
+		return false
+	}
+	st := string(rest[:j])
+	for _, w := range []string{"sync.Cond.Wait", "sync.Mutex.Lock", "sync.RWMutex", "semacquire", "chan receive", "chan send", "select", "sync.WaitGroup.Wait"} {
+		if strings.HasPrefix(st, w) {
+			return true
+		}
+	}
+	return false
+}
+
+func (e *c12Env) sameKeyParked(key string) bool {
+	e.fake.mu.Lock()
+	defer e.fake.mu.Unlock()
+	for _, p := range e.fake.parked {
+		if p.key == key {
+			return true
+		}
+	}
+	return false
+}
+
+// forget drops the bookkeeping of a put that was let through
+func (e *c12Env) forget(p *c12Put) {
+	for t, q := range e.tickets {
+		if q == p {
+			delete(e.tickets, t)
+		}
+	}
+	if n := c12StampOf(p.val); n >= 0 {
+		if w, ok := e.unarrived[n]; ok && w.key == p.key {
+			delete(e.unarrived, n)
+		}
+	}
 }
 
 // runOp executes fn on its own goroutine (whose id marks synchronous store writes) and waits for it.
-// If the implementation blocks while asynchronous writes of the same key are parked (an implementation that
-// orders its writes per key), those writes are let through in ticket order.
+// If the op is parked on a lock / condition while asynchronous writes of the same key are parked in the store
+// (an implementation that orders its writes per key: the synchronous write or delete waits for the in-flight
+// one), those writes are let through, oldest first.  key == "" : never let anything through.
 func (e *c12Env) runOp(key string, fn func()) string {
 	done := make(chan string, 1)
+	gidc := make(chan int64, 1)
 	go func() {
 		defer func() {
 			if r := recover(); r != nil {
 				done <- fmt.Sprintf("panic:%v", r)
 			}
 		}()
+		g := c12GID()
 		e.fake.mu.Lock()
-		e.fake.opGID = c12GID()
+		e.fake.opGID = g
 		e.fake.mu.Unlock()
+		gidc <- g
 		fn()
 		done <- ""
 	}()
+	gid := <-gidc
 	start := time.Now()
+	waitingSince := time.Time{}
 	for {
 		select {
 		case r := <-done:
@@ -610,29 +686,35 @@ func (e *c12Env) runOp(key string, fn func()) string {
 			e.fake.opGID = -2
 			e.fake.mu.Unlock()
 			return r
-		case <-time.After(150 * time.Millisecond):
-			// blocked: let parked writes of this key through, oldest ticket first
-			p := e.fake.take(func(p *c12Put) bool { return key != "" && p.key == key })
-			if p != nil {
-				e.fake.complete(p, true)
-				for t, q := range e.tickets {
-					if q == p {
-						delete(e.tickets, t)
-					}
+		case <-time.After(time.Millisecond):
+			if key != "" && e.sameKeyParked(key) && c12GoroutineWaiting(gid) {
+				if waitingSince.IsZero() {
+					waitingSince = time.Now()
 				}
-				continue
+				if time.Since(waitingSince) >= 10*time.Millisecond {
+					if p := e.fake.take(func(p *c12Put) bool { return p.key == key }); p != nil {
+						c12Ordering = true
+						e.fake.complete(p, true)
+						e.forget(p)
+					}
+					waitingSince = time.Time{}
+				}
+			} else {
+				waitingSince = time.Time{}
 			}
-			if time.Since(start) > 10*time.Second {
+			if time.Since(start) > 20*time.Second {
 				return "hang"
 			}
 		}
 	}
 }
 
-// claim waits for a not yet ticketed parked put of key (matching want if non-empty) and gives it ticket t
-func (e *c12Env) claim(t int, key string, want string) {
+type c12Want struct{ key, want string }
+
+// claim waits (at most d) for a not yet ticketed parked put of key (matching want if non-empty) and gives it ticket t
+func (e *c12Env) claim(t int, key string, want string, d time.Duration) bool {
 	var got *c12Put
-	c12WaitFor(300*time.Millisecond, func() bool {
+	c12WaitFor(d, func() bool {
 		e.fake.mu.Lock()
 		defer e.fake.mu.Unlock()
 		for _, p := range e.fake.parked {
@@ -646,6 +728,71 @@ func (e *c12Env) claim(t int, key string, want string) {
 	})
 	if got != nil {
 		e.tickets[t] = got
+		return true
+	}
+	return false
+}
+
+// expect: ticket t was issued for key; claim its put, or remember that it has not reached the store yet
+func (e *c12Env) expect(t int, key string, want string) {
+	behind := e.sameKeyParkedOther(key, want)
+	d := 300 * time.Millisecond
+	if c12Ordering && behind {
+		d = 2 * time.Millisecond
+	}
+	if !e.claim(t, key, want, d) {
+		e.unarrived[t] = c12Want{key, want}
+		if behind {
+			c12Ordering = true
+		}
+	}
+}
+
+// is another put of the same key parked (one that does not carry the wanted stamp)?
+func (e *c12Env) sameKeyParkedOther(key, want string) bool {
+	e.fake.mu.Lock()
+	defer e.fake.mu.Unlock()
+	for _, p := range e.fake.parked {
+		if p.key == key && (want == "" || !bytes.Contains(p.val, []byte(want))) {
+			return true
+		}
+	}
+	return false
+}
+
+// finish: done:<t>
+func (e *c12Env) finish(t int) {
+	if p := e.tickets[t]; p != nil {
+		delete(e.tickets, t)
+		if q := e.fake.take(func(x *c12Put) bool { return x == p }); q != nil {
+			e.fake.complete(q, true)
+		}
+		return
+	}
+	w, ok := e.unarrived[t]
+	if !ok {
+		return
+	}
+	delete(e.unarrived, t)
+	// the write is queued behind earlier writes of the same key: let those through, oldest first
+	for n := 0; n < 64; n++ {
+		if e.claim(t, w.key, w.want, 0) {
+			p := e.tickets[t]
+			delete(e.tickets, t)
+			if q := e.fake.take(func(x *c12Put) bool { return x == p }); q != nil {
+				e.fake.complete(q, true)
+			}
+			return
+		}
+		p := e.fake.take(func(x *c12Put) bool { return x.key == w.key })
+		if p != nil {
+			e.fake.complete(p, true)
+			e.forget(p)
+		}
+		// wait for the next write of this key to reach the store; none: the implementation dropped it
+		if !c12WaitFor(60*time.Millisecond, func() bool { return e.sameKeyParked(w.key) }) {
+			return
+		}
 	}
 }
 
@@ -660,6 +807,7 @@ func (e *c12Env) crash(preserved bool, fail int) string {
 		e.fake.complete(p, false)
 	}
 	e.tickets = map[int]*c12Put{}
+	e.unarrived = map[int]c12Want{}
 	if !preserved {
 		e.sb.wipe()
 	}
@@ -676,7 +824,7 @@ func (e *c12Env) crash(preserved bool, fail int) string {
 	for _, tok := range strings.Split(lg, ",") {
 		if strings.HasPrefix(tok, "R") {
 			i, _ := strconv.Atoi(strings.SplitN(tok[1:], ":", 2)[0])
-			e.claim(e.tick, c12SessID(i), "")
+			e.expect(e.tick, c12SessID(i), "")
 			e.tick++
 		}
 	}
@@ -842,8 +990,8 @@ func (e *c12Env) runCase(f []string) string {
 			e.tick++
 			st := fmt.Sprintf("t%d", t)
 			e.p.stamp(i, st)
-			r := e.runOp(c12SessID(i), func() { e.p.checkpoint(i) })
-			e.claim(t, c12SessID(i), `"`+st+`"`)
+			r := e.runOp("", func() { e.p.checkpoint(i) })
+			e.expect(t, c12SessID(i), `"`+st+`"`)
 			out = append(out, fmt.Sprintf("ck%s %d %s", r, t, e.log.take()))
 		case "cks":
 			i, _ := strconv.Atoi(a[1])
@@ -867,12 +1015,7 @@ func (e *c12Env) runCase(f []string) string {
 			out = append(out, "rel"+r+" "+e.log.take())
 		case "done":
 			t, _ := strconv.Atoi(a[1])
-			if p := e.tickets[t]; p != nil {
-				delete(e.tickets, t)
-				if q := e.fake.take(func(x *c12Put) bool { return x == p }); q != nil {
-					e.fake.complete(q, true)
-				}
-			}
+			e.finish(t)
 			out = append(out, "done")
 		case "crash":
 			fail := -1
@@ -918,7 +1061,7 @@ func c12Run(t *testing.T, mk func(e *c12Env) c12Proto, dpPrefix string, ns strin
 			}()
 			lg := &c12Log{}
 			e := &c12Env{log: lg, fake: &c12Fake{data: map[string][]byte{}, log: lg, opGID: -2}, sb: newC12SB(lg, dpPrefix),
-				bus: &c12Bus{log: lg}, cache: newC12Cache(), tickets: map[int]*c12Put{}, used: map[int]bool{}, t0: time.Now()}
+				bus: &c12Bus{log: lg}, cache: newC12Cache(), tickets: map[int]*c12Put{}, unarrived: map[int]c12Want{}, used: map[int]bool{}, t0: time.Now()}
 			e.ns = ns
 			e.n4, _ = strconv.Atoi(f[1])
 			e.n6, _ = strconv.Atoi(f[2])
